@@ -199,6 +199,30 @@ theorem preempt_takes_strictly_lower {w : World} {p : Pid} {pl : Nat} {x : Pool}
       heldOf w pl ((x.holders.tag 1).key - 1) = (x.holders.tag 1).item.b :=
   poolMug_takes hi hx hc hlt fuel rem
 
+/-- the victim's *process* priority (not just the priority stored in its record) is strictly below the caller's, and a
+    process is never its own victim -/
+theorem preempt_victim_priority_strictly_lower {w : World} {p : Pid} {pl : Nat} {x : Pool} (hi : PoolInv w)
+    (hx : w.pools[pl]? = some x) (hc : x.holders.count ≠ 0) (hlt : (x.holders.tag 1).i < (w.proc p).prio) :
+    (x.holders.tag 1).key ≠ p + 1 ∧ (w.proc ((x.holders.tag 1).key - 1)).prio < (w.proc p).prio :=
+  mug_not_self hi hx hc hlt
+
+/-- **the mugging loop as a whole** (any number of victims): it keeps the invariant, and the caller's holding plus what
+    is still to be claimed afterwards equals its holding plus the claim before — the loop hands the caller exactly what it
+    takes off the claim -/
+theorem preempt_loop_exact (fuel : Nat) (w : World) (p : Pid) (pl rem : Nat) (hi : PoolInv w) (hp : p < w.procs.size)
+    (hrem : 0 < rem) :
+    PoolInv (poolMug fuel w p pl rem).1 ∧ (poolMug fuel w p pl rem).1.procs.size = w.procs.size ∧
+    heldOf (poolMug fuel w p pl rem).1 pl p + remaining (poolMug fuel w p pl rem).2 = heldOf w pl p + rem :=
+  poolMug_total fuel w p pl rem hi hp hrem
+
+/-- **preempt_ok** (`cmb_resourcepool_preempt`): whenever a pass of the preempt loop returns, it returns success and has
+    given the caller exactly the outstanding claim `rem` — free units plus what was taken from any number of victims -/
+theorem preempt_ok {w : World} {p : Pid} {pl : Nat} {x : Pool} (hi : PoolInv w) (hp : p < w.procs.size)
+    (hx : w.pools[pl]? = some x) (rem ini : Nat) (hrem : 0 < rem) {sig : Int} {extra : String}
+    (hr : (poolLoop w p pl rem ini true).2 = .ret sig extra) :
+    sig = sigSuccess ∧ heldOf (poolLoop w p pl rem ini true).1 pl p = heldOf w pl p + rem :=
+  poolLoop_preempt_ok hi hp hx rem ini hrem hr
+
 /-- the mugging loop as a whole (any number of victims) keeps the invariant: units only move between records -/
 theorem preempt_conserves (fuel : Nat) (w : World) (p : Pid) (pl rem : Nat) (hi : PoolInv w) (hp : p < w.procs.size)
     (hrem : 0 < rem) : PoolInv (poolMug fuel w p pl rem).1 :=
